@@ -342,3 +342,97 @@ func TestVerifOut(t *testing.T) {
 		fmt.Fprintln(w, r)
 	}
 }
+
+// TestVerifOutStress: Get(newest) racing Add(next) on the real sync primitives (GOMAXPROCS > 1).
+// After every round GetNext(newest) with an already cancelled context must return the batch
+// just added and Get(newest) must still show what was added under that id; neither depends on
+// how the two calls interleaved, so a correct tree can never fail this (no timing assumptions).
+// env: VERIF_ROUNDS, VERIF_BUDGET_MS; result line in $VERIF_OUT:
+//
+//	stress rounds=<n> result=ok | stress rounds=<n> result=fail round=<r> what=<...> id=<id> got=<...> want=<...>
+func TestVerifOutStress(t *testing.T) {
+	rounds, _ := strconv.Atoi(os.Getenv("VERIF_ROUNDS"))
+	if rounds <= 0 {
+		rounds = 3000
+	}
+	budget, _ := strconv.Atoi(os.Getenv("VERIF_BUDGET_MS"))
+	if budget <= 0 {
+		budget = 8000
+	}
+	if runtime.GOMAXPROCS(0) < 4 {
+		defer runtime.GOMAXPROCS(runtime.GOMAXPROCS(4))
+	}
+	out, err := os.Create(os.Getenv("VERIF_OUT"))
+	if err != nil {
+		t.Fatal(err)
+	}
+	defer out.Close()
+	o, err := NewOutputStream(t.TempDir())
+	if err != nil {
+		t.Fatal(err)
+	}
+	mk := func(id uint64) []Message {
+		msgs := make([]Message, 1+id%7)
+		for i := range msgs {
+			msgs[i] = Message{
+				Id:             robust.Id{Id: id, Reply: uint64(i + 1)},
+				Data:           fmt.Sprintf(":nick!user@robust/0x1 PRIVMSG #chan :batch %d reply %d, some text which is a little longer", id, i+1),
+				InterestingFor: map[uint64]bool{1: true, id%5 + 2: true},
+			}
+		}
+		return msgs
+	}
+	cancelled, cancel := context.WithCancel(context.Background())
+	cancel()
+	deadline := time.Now().Add(time.Duration(budget) * time.Millisecond)
+	id := uint64(1)
+	if err := o.Add(mk(id)); err != nil {
+		t.Fatal(err)
+	}
+	res := ""
+	done := 0
+	for round := 0; round < rounds && time.Now().Before(deadline); round++ {
+		var wg sync.WaitGroup
+		start := make(chan struct{})
+		var got []Message
+		var gotOK bool
+		wg.Add(2)
+		go func() {
+			defer wg.Done()
+			<-start
+			got, gotOK = o.Get(robust.Id{Id: id})
+		}()
+		go func() {
+			defer wg.Done()
+			<-start
+			o.Add(mk(id + 1))
+		}()
+		close(start)
+		wg.Wait()
+		done++
+		want := verifOutShowBatch(mk(id))
+		if !gotOK || verifOutShowBatch(got) != want {
+			res = fmt.Sprintf("round=%d what=racing-get-wrong id=%d got=%s want=%s", round, id, verifOutShowBatch(got), want)
+			break
+		}
+		next := o.GetNext(cancelled, robust.Id{Id: id})
+		if wantNext := verifOutShowBatch(mk(id + 1)); verifOutShowBatch(next) != wantNext {
+			res = fmt.Sprintf("round=%d what=getnext-misses-successor id=%d got=%s want=%s", round, id, verifOutShowBatch(next), wantNext)
+			break
+		}
+		if again, ok := o.Get(robust.Id{Id: id}); !ok || verifOutShowBatch(again) != want {
+			res = fmt.Sprintf("round=%d what=get-after-race-wrong id=%d got=%s want=%s", round, id, verifOutShowBatch(again), want)
+			break
+		}
+		if id > 3 {
+			o.Delete(robust.Id{Id: id - 3})
+		}
+		id++
+	}
+	if res == "" {
+		fmt.Fprintf(out, "stress rounds=%d result=ok\n", done)
+	} else {
+		fmt.Fprintf(out, "stress rounds=%d result=fail %s\n", done, res)
+	}
+	o.Close()
+}
